@@ -8,6 +8,10 @@ CHECKS = {
    text='Machine-checked soundness (Coq, axiom-free) of the kernel-rule model for 9 of the 15 primitive rules in every finite standard model; the model is tied to kernel/thm.py by running every generated rule application through both (alpha-equal results, same typing verdict); every sequent the implementation accepts is evaluated in all small standard models by the extracted-in-Coq evaluator. Partial: 6 rules are covered by correspondence+search only.',
    note='Trusted: Coq kernel, vm_compute, the hand-written model kept honest by the differential correspondence on generated scripts; assumes constants in rule arguments are used at instances of their declared types (the checker does not enforce it).',
    design='7/C01'),
+ 'C02': dict(category='proof', technique='Coq proof that the checker model accepts only proofs in the inductive closure of the rules (invariant over the pre-order traversal) + differential correspondence + positional citation oracle',
+   text='Machine-checked (axiom-free) theorem check_sound: for every proof object (any ids, citations, stated sequents, nesting, macro expansions, arbitrary rule functions) a gap-free acceptance by the model of Theory.check_proof yields a sequent derivable by the rules from earlier-verified steps; plus citation-shape, stated-not-stronger, gap and checked_extend theorems. The model is tied to kernel/theory.py + kernel/proof.py by running ~2.8k proof objects (exhaustive single-item shapes, random shapes with ids independent of positions, mutated valid proofs, extension pairs) through both.',
+   note='Trusted: Coq kernel; the hand-written model of _check_proof_item kept honest by the differential correspondence; compute_only mode excluded by design.',
+   design='7/C02'),
 }
 m = {
  'version': 1,
